@@ -49,7 +49,7 @@ func analyse(sc cScenario) timedFacts {
 			f.firstAcc = i
 		}
 	}
-	f.anyTerm = f.firstCan >= 0 || f.firstClo >= 0 || f.firstAcc >= 0
+	f.anyTerm = f.firstCan >= 0 || f.firstClo >= 0 || f.firstAcc >= 0 || sc.werr >= 0
 	return f
 }
 
@@ -64,7 +64,32 @@ func otherTerminatorAt(sc cScenario, f timedFacts, self int, t int64) bool {
 			return true
 		}
 	}
+	if sc.werr >= 0 && t == schedAt(sc.T, sc.werr) {
+		return true
+	}
 	return sc.n >= 0 && t == schedAt(sc.T, sc.n)
+}
+
+// cliQuietBefore: nothing that could end the call happens before instant t
+func cliQuietBefore(sc cScenario, f timedFacts, t int64) bool {
+	for i, e := range sc.evs {
+		if f.eff[i] < t && (e.kind == "can" || e.kind == "cdl" || e.kind == "clo" || f.isAccept(e.kind)) {
+			return false
+		}
+	}
+	return true
+}
+
+func cliTryOf(T, t int64) int {
+	for k := 0; k < 62; k++ {
+		if schedAt(T, k) == t {
+			return k
+		}
+		if schedAt(T, k) > t {
+			break
+		}
+	}
+	return -1
 }
 
 func checkC12(sc cScenario, r cResult) (string, string) {
@@ -102,6 +127,28 @@ func checkC12(sc cScenario, r cResult) (string, string) {
 			}
 		}
 	}
+	// a write error on the open client ends the call at once, nothing follows
+	if sc.werr >= 0 && (sc.n < 0 || sc.werr < sc.n) && cliQuietBefore(sc, f, schedAt(sc.T, sc.werr)+1) && sc.H >= schedAt(sc.T, sc.werr) {
+		t := schedAt(sc.T, sc.werr)
+		if !r.returned || r.retT != t || r.outcome != "werr" || len(r.txs) != sc.werr {
+			return "write-error", fmt.Sprintf("WriteTo #%d fails at %d: want %d transmissions and the write error at %d, got %s", sc.werr, t, sc.werr, t, r.canon())
+		}
+	}
+	// "A response accepted during try k ends the call and no further transmission follows":
+	// the peer answers from inside the WriteTo of try k
+	for i, e := range sc.evs {
+		if !e.hook || !f.isAccept(e.kind) {
+			continue
+		}
+		k := cliTryOf(sc.T, e.t)
+		if k < 0 || !(sc.n < 0 || k < sc.n) || !cliQuietBefore(sc, f, e.t) || (sc.werr >= 0 && sc.werr <= k) || sc.H < e.t {
+			break
+		}
+		if !r.returned || r.retT != e.t || r.outcome != fmt.Sprintf("resp%d", i) || len(r.txs) != k+1 {
+			return "stop", fmt.Sprintf("acceptable response handed over inside the WriteTo of try %d (instant %d): want it returned at %d after %d transmissions, got %s", k, e.t, e.t, k+1, r.canon())
+		}
+		break
+	}
 	if r.returned && strings.HasPrefix(r.outcome, "resp") {
 		k := len(r.txs) - 1
 		if k < 0 || schedAt(sc.T, k) > r.retT || r.retT > schedAt(sc.T, k+1) {
@@ -133,6 +180,15 @@ func checkC11(sc cScenario, r cResult) (string, string) {
 	}
 	if strings.HasPrefix(r.outcome, "other:") {
 		return "unexpected-error", "SendAndRead returned " + r.outcome
+	}
+	if r.outcome == "werr" && (sc.werr < 0 || r.retT != schedAt(sc.T, sc.werr)) {
+		return "unexpected-error", "SendAndRead returned a write error nobody injected: " + r.canon()
+	}
+	if sc.werr >= 0 && (sc.n < 0 || sc.werr < sc.n) && cliQuietBefore(sc, f, schedAt(sc.T, sc.werr)+1) && sc.H >= schedAt(sc.T, sc.werr) {
+		t := schedAt(sc.T, sc.werr)
+		if !r.returned || r.retT != t || r.outcome != "werr" {
+			return "write-error-prompt", fmt.Sprintf("WriteTo #%d fails at %d on the open client, call %s", sc.werr, t, r.canon())
+		}
 	}
 	if i := f.firstCan; i >= 0 {
 		t := f.eff[i]
